@@ -56,6 +56,9 @@ def enumerate_cases(tier, seed):
       for rub in (None, 1.5):
         for ste in (True, False):
           out.append(dict(fam="fixed", q=cfg, f=1.0, ste=ste, iqc=False, rub=rub))
+  for c in list(out):
+    if c["fam"] == "fixed" and c["q"]["bits"] in (2, 4) and c["f"] == 1.0 and "iqc" not in c:
+      out.append(dict(c, stoch=True))
   for cfg in c03.enumerate_cases(tier, seed):
     if cfg["bits"] not in (2, 3, 4, 8):
       continue
@@ -103,6 +106,8 @@ def _fixed(case):
     extra = dict(qnoise_factor=case["f"])
   if "iqc" in case:
     extra.update(is_quantized_clip=False, relu_upper_bound=case["rub"])
+  if case.get("stoch"):
+    extra["use_stochastic_rounding"] = True     # learning phase 0: deterministic forward, the same straight-through gradient
   q = fp.make(cfg, **extra)
   x = fp.alphabet(cfg)
   x64 = x.astype(np.float64)
